@@ -1,2 +1,1006 @@
-// Package c19: check for property C19 (see /verif/DESIGN.md §3 C19).
+// Package c19: in-place mode never leaves a file half-written. E4: the real
+// `mlr -I` binary is run under strace; the logged syscall history (temp
+// creation, every write with its bytes, close, rename, chmod, unlink) is
+// replayed on a directory model at EVERY prefix and, for every write, at every
+// byte truncation (torn write); the invariant is evaluated on each crash
+// state. Positional fault scenarios run on the real binary.
 package c19
+
+import (
+	"bytes"
+	"compress/gzip"
+	"compress/zlib"
+	"fmt"
+	"io"
+	"os"
+	"os/exec"
+	"path/filepath"
+	"regexp"
+	"sort"
+	"strconv"
+	"strings"
+	"syscall"
+	"time"
+
+	"verif/harness/vf"
+)
+
+func init() {
+	vf.Register(&vf.CheckDef{ID: "C19", Level: "fault_enumeration", Run: run,
+		Workers: map[string]vf.WorkerFunc{"crash": crashWorker, "fault": faultWorker}})
+}
+
+// ---------------------------------------------------------------- strace log parsing
+
+type event struct {
+	Pid  int
+	Call string
+	Args []string // raw argument tokens
+	Ret  int
+	Line string
+}
+
+var lineRe = regexp.MustCompile(`^(\d+)\s+(.*)$`)
+var callRe = regexp.MustCompile(`^(\w+)\((.*)\)\s+=\s+(-?\d+|\?)(.*)$`)
+var unfinishedRe = regexp.MustCompile(`^(\w+)\((.*) <unfinished \.\.\.>$`)
+var resumedRe = regexp.MustCompile(`^<\.\.\. (\w+) resumed>(.*)$`)
+
+func splitArgs(s string) []string {
+	var out []string
+	depth, inStr, esc := 0, false, false
+	cur := strings.Builder{}
+	for i := 0; i < len(s); i++ {
+		ch := s[i]
+		if inStr {
+			cur.WriteByte(ch)
+			if esc {
+				esc = false
+			} else if ch == '\\' {
+				esc = true
+			} else if ch == '"' {
+				inStr = false
+			}
+			continue
+		}
+		switch ch {
+		case '"':
+			inStr = true
+			cur.WriteByte(ch)
+		case '(', '[', '{':
+			depth++
+			cur.WriteByte(ch)
+		case ')', ']', '}':
+			depth--
+			cur.WriteByte(ch)
+		case ',':
+			if depth == 0 {
+				out = append(out, strings.TrimSpace(cur.String()))
+				cur.Reset()
+			} else {
+				cur.WriteByte(ch)
+			}
+		default:
+			cur.WriteByte(ch)
+		}
+	}
+	if strings.TrimSpace(cur.String()) != "" {
+		out = append(out, strings.TrimSpace(cur.String()))
+	}
+	return out
+}
+
+// decode a strace -xx string literal "\x61\x62"... (possibly followed by "...")
+func decodeStr(tok string) ([]byte, bool) {
+	if len(tok) < 2 || tok[0] != '"' {
+		return nil, false
+	}
+	end := strings.LastIndex(tok, `"`)
+	body := tok[1:end]
+	truncated := strings.HasSuffix(tok, "...")
+	var out []byte
+	for i := 0; i < len(body); {
+		if body[i] == '\\' && i+3 < len(body)+0 && body[i+1] == 'x' {
+			v, err := strconv.ParseUint(body[i+2:i+4], 16, 8)
+			if err != nil {
+				return nil, false
+			}
+			out = append(out, byte(v))
+			i += 4
+		} else {
+			out = append(out, body[i])
+			i++
+		}
+	}
+	return out, !truncated
+}
+
+func parseLog(text string) ([]event, error) {
+	var evs []event
+	pending := map[int]string{}
+	for _, ln := range strings.Split(text, "\n") {
+		if ln == "" {
+			continue
+		}
+		m := lineRe.FindStringSubmatch(ln)
+		if m == nil {
+			return nil, fmt.Errorf("unparsable strace line %q", trunc(ln, 200))
+		}
+		pid, _ := strconv.Atoi(m[1])
+		rest := m[2]
+		if strings.HasPrefix(rest, "+++") || strings.HasPrefix(rest, "---") {
+			continue
+		}
+		if u := unfinishedRe.FindStringSubmatch(rest); u != nil {
+			pending[pid] = u[1] + "(" + u[2]
+			continue
+		}
+		if r := resumedRe.FindStringSubmatch(rest); r != nil {
+			p, ok := pending[pid]
+			if !ok {
+				return nil, fmt.Errorf("resumed without unfinished: %q", trunc(ln, 200))
+			}
+			delete(pending, pid)
+			rest = p + r[2]
+		}
+		c := callRe.FindStringSubmatch(rest)
+		if c == nil {
+			return nil, fmt.Errorf("unparsable strace call %q", trunc(rest, 200))
+		}
+		ret := 0
+		if c[3] == "?" {
+			ret = -1
+		} else {
+			ret, _ = strconv.Atoi(c[3])
+		}
+		evs = append(evs, event{Pid: pid, Call: c[1], Args: splitArgs(c[2]), Ret: ret, Line: trunc(rest, 160)})
+	}
+	return evs, nil
+}
+
+func trunc(s string, n int) string {
+	if len(s) > n {
+		return s[:n] + "..."
+	}
+	return s
+}
+
+// ---------------------------------------------------------------- directory model
+
+type inode struct {
+	data []byte
+	mode uint32
+}
+
+type fdEnt struct {
+	ino    *inode
+	off    int
+	append bool
+}
+
+type dirModel struct {
+	names map[string]*inode
+	fds   map[int]*fdEnt
+}
+
+func (d *dirModel) clone() *dirModel {
+	n := &dirModel{names: map[string]*inode{}, fds: map[int]*fdEnt{}}
+	m := map[*inode]*inode{}
+	cp := func(i *inode) *inode {
+		if c, ok := m[i]; ok {
+			return c
+		}
+		c := &inode{data: append([]byte{}, i.data...), mode: i.mode}
+		m[i] = c
+		return c
+	}
+	for k, v := range d.names {
+		n.names[k] = cp(v)
+	}
+	for k, v := range d.fds {
+		n.fds[k] = &fdEnt{ino: cp(v.ino), off: v.off, append: v.append}
+	}
+	return n
+}
+
+func norm(p string) (string, bool) {
+	if strings.HasPrefix(p, "/") {
+		return "", false
+	}
+	return filepath.Clean(p), true
+}
+
+// apply one event; partial >= 0 means: a write torn after `partial` bytes.
+// Returns whether the event touched the model.
+func (d *dirModel) apply(e event, partial int) (bool, error) {
+	str := func(i int) (string, bool) {
+		if i >= len(e.Args) {
+			return "", false
+		}
+		b, ok := decodeStr(e.Args[i])
+		if !ok {
+			return "", false
+		}
+		return norm(string(b))
+	}
+	switch e.Call {
+	case "openat", "open":
+		pi, fi := 1, 2
+		if e.Call == "open" {
+			pi, fi = 0, 1
+		}
+		if e.Ret < 0 {
+			return false, nil
+		}
+		p, ok := str(pi)
+		if !ok {
+			delete(d.fds, e.Ret) // an untracked file took this descriptor number
+			return false, nil
+		}
+		flags := e.Args[fi]
+		ino := d.names[p]
+		if ino == nil {
+			if !strings.Contains(flags, "O_CREAT") {
+				return false, fmt.Errorf("open of unknown relative path %q without O_CREAT succeeded", p)
+			}
+			mode := uint64(0644)
+			if fi+1 < len(e.Args) {
+				mode, _ = strconv.ParseUint(e.Args[fi+1], 8, 32)
+			}
+			ino = &inode{mode: uint32(mode) &^ 022}
+			d.names[p] = ino
+		}
+		if strings.Contains(flags, "O_TRUNC") {
+			ino.data = nil
+		}
+		if strings.Contains(flags, "O_WRONLY") || strings.Contains(flags, "O_RDWR") {
+			d.fds[e.Ret] = &fdEnt{ino: ino, append: strings.Contains(flags, "O_APPEND")}
+			return true, nil
+		}
+		delete(d.fds, e.Ret)
+		return false, nil
+	case "close":
+		fd, _ := strconv.Atoi(e.Args[0])
+		if _, ok := d.fds[fd]; ok {
+			delete(d.fds, fd)
+			return true, nil
+		}
+		return false, nil
+	case "write":
+		fd, _ := strconv.Atoi(e.Args[0])
+		f, ok := d.fds[fd]
+		if !ok || e.Ret <= 0 {
+			return false, nil
+		}
+		data, complete := decodeStr(e.Args[1])
+		if !complete && len(data) < e.Ret {
+			return false, fmt.Errorf("strace truncated a write payload (%d < %d)", len(data), e.Ret)
+		}
+		n := e.Ret
+		if partial >= 0 && partial < n {
+			n = partial
+		}
+		if f.append {
+			f.off = len(f.ino.data)
+		}
+		for len(f.ino.data) < f.off {
+			f.ino.data = append(f.ino.data, 0)
+		}
+		f.ino.data = append(f.ino.data[:f.off], data[:n]...)
+		f.off += n
+		return true, nil
+	case "rename", "renameat", "renameat2":
+		oi, ni := 0, 1
+		if e.Call != "rename" {
+			oi, ni = 1, 3
+		}
+		if e.Ret != 0 {
+			return false, nil
+		}
+		o, ok1 := str(oi)
+		n, ok2 := str(ni)
+		if !ok1 || !ok2 {
+			return false, nil
+		}
+		ino := d.names[o]
+		if ino == nil {
+			return false, fmt.Errorf("rename of unknown %q", o)
+		}
+		d.names[n] = ino
+		delete(d.names, o)
+		return true, nil
+	case "chmod", "fchmodat":
+		pi, mi := 0, 1
+		if e.Call == "fchmodat" {
+			pi, mi = 1, 2
+		}
+		if e.Ret != 0 {
+			return false, nil
+		}
+		p, ok := str(pi)
+		if !ok {
+			return false, nil
+		}
+		ino := d.names[p]
+		if ino == nil {
+			return false, fmt.Errorf("chmod of unknown %q", p)
+		}
+		mode, _ := strconv.ParseUint(e.Args[mi], 8, 32)
+		ino.mode = uint32(mode)
+		return true, nil
+	case "fchmod":
+		fd, _ := strconv.Atoi(e.Args[0])
+		if f, ok := d.fds[fd]; ok && e.Ret == 0 {
+			mode, _ := strconv.ParseUint(e.Args[1], 8, 32)
+			f.ino.mode = uint32(mode)
+			return true, nil
+		}
+		return false, nil
+	case "unlink", "unlinkat":
+		pi := 0
+		if e.Call == "unlinkat" {
+			pi = 1
+		}
+		if e.Ret != 0 {
+			return false, nil
+		}
+		p, ok := str(pi)
+		if !ok {
+			return false, nil
+		}
+		if d.names[p] == nil {
+			return false, fmt.Errorf("unlink of unknown %q", p)
+		}
+		delete(d.names, p)
+		return true, nil
+	case "ftruncate":
+		fd, _ := strconv.Atoi(e.Args[0])
+		if f, ok := d.fds[fd]; ok && e.Ret == 0 {
+			n, _ := strconv.Atoi(e.Args[1])
+			if n < len(f.ino.data) {
+				f.ino.data = f.ino.data[:n]
+			}
+			return true, nil
+		}
+		return false, nil
+	case "pwrite64", "writev":
+		fd, _ := strconv.Atoi(e.Args[0])
+		if _, ok := d.fds[fd]; ok {
+			return false, fmt.Errorf("%s on a tracked file is not modelled", e.Call)
+		}
+	}
+	return false, nil
+}
+
+// ---------------------------------------------------------------- scenarios
+
+type fileSpec struct {
+	Name string
+	Data []byte
+	Mode uint32
+}
+
+type scenario struct {
+	Name  string
+	Args  []string // mlr arguments between -I and the file names
+	Files []fileSpec
+	Comp  string // "", "gz", "z"
+}
+
+func recs(format string, n int, seed int) []byte {
+	var b bytes.Buffer
+	switch format {
+	case "dkvp":
+		for i := 1; i <= n; i++ {
+			fmt.Fprintf(&b, "a=%d,b=%d,s=x%d\n", i+seed, (i*7+seed)%5, i)
+		}
+	case "csv":
+		b.WriteString("a,b,s\n")
+		for i := 1; i <= n; i++ {
+			fmt.Fprintf(&b, "%d,%d,x%d\n", i+seed, (i*7+seed)%5, i)
+		}
+	case "json":
+		b.WriteString("[\n")
+		for i := 1; i <= n; i++ {
+			fmt.Fprintf(&b, `{"a": %d, "b": %d, "s": "x%d"}`, i+seed, (i*7+seed)%5, i)
+			if i < n {
+				b.WriteString(",")
+			}
+			b.WriteString("\n")
+		}
+		b.WriteString("]\n")
+	}
+	return b.Bytes()
+}
+
+func compress(kind string, data []byte) []byte {
+	var b bytes.Buffer
+	switch kind {
+	case "gz":
+		w := gzip.NewWriter(&b)
+		w.Write(data)
+		w.Close()
+	case "z":
+		w := zlib.NewWriter(&b)
+		w.Write(data)
+		w.Close()
+	default:
+		return data
+	}
+	return b.Bytes()
+}
+
+func decompress(kind string, data []byte) ([]byte, error) {
+	switch kind {
+	case "gz":
+		r, err := gzip.NewReader(bytes.NewReader(data))
+		if err != nil {
+			return nil, err
+		}
+		return io.ReadAll(r)
+	case "z":
+		r, err := zlib.NewReader(bytes.NewReader(data))
+		if err != nil {
+			return nil, err
+		}
+		return io.ReadAll(r)
+	}
+	return data, nil
+}
+
+func scenarios(quick bool) []scenario {
+	var out []scenario
+	type verb struct {
+		name string
+		args []string
+	}
+	verbs := []verb{
+		{"cat", []string{"cat"}}, {"head1", []string{"head", "-n", "1"}}, {"put", []string{"put", "$c=$a+$b"}},
+		{"sort", []string{"sort", "-nr", "a"}}, {"tac", []string{"tac"}}, {"nothing", []string{"nothing"}},
+		{"put-q-end-emit", []string{"put", "-q", "@n[NR]=$a; end{emit @n}"}}, {"cat-n", []string{"cat", "-n"}},
+		{"put-begin-end", []string{"put", `begin{@c=0} @c+=1; $nr=NR; $fnr=FNR; $fn=FILENAME; end{emit @c}`}},
+	}
+	formats := []string{"dkvp", "csv", "json"}
+	lists := [][]int{{3}, {0}, {1, 3}, {3, 0, 1}, {300}} // record counts per file; 300 records ~ 5 kB > bufio's 4096
+	modes := []uint32{0644, 0600, 0755}
+	comps := []string{"", "gz", "z"}
+	k := 0
+	for vi, v := range verbs {
+		for fi, f := range formats {
+			for li, l := range lists {
+				for ci, comp := range comps {
+					k++
+					if quick {
+						// a covering subset: every verb, format, list shape, compression and mode appears
+						if !((vi+fi+li+ci)%7 == 0 || (vi == 2 && li == 3) || (li == 4 && fi == 0 && ci == 0 && vi < 3)) {
+							continue
+						}
+					} else if comp != "" && li == 4 && vi > 2 {
+						continue
+					}
+					if f == "csv" && v.name == "put-begin-end" {
+						continue // the end-block record has other keys: not expressible after a CSV header (that is C17's subject)
+					}
+					sc := scenario{Comp: comp}
+					ext := f
+					flag := map[string][]string{"dkvp": nil, "csv": {"--icsv", "--ocsv"}, "json": {"--ijson", "--ojson"}}[f]
+					sc.Args = append(append([]string{}, flag...), v.args...)
+					for i, n := range l {
+						name := fmt.Sprintf("f%d.%s", i+1, ext)
+						if i == 1 {
+							name = filepath.Join("sub", name) // a file in a subdirectory: the temp file must live next to it
+						}
+						if comp != "" {
+							name += "." + comp
+						}
+						sc.Files = append(sc.Files, fileSpec{Name: name, Data: compress(comp, recs(f, n, i*10)), Mode: modes[(k+i)%3]})
+					}
+					sc.Name = fmt.Sprintf("%s:%s:%v:%s", v.name, f, l, map[string]string{"": "plain", "gz": "gz", "z": "zlib"}[comp])
+					out = append(out, sc)
+				}
+			}
+		}
+	}
+	return out
+}
+
+// ---------------------------------------------------------------- running the real binary
+
+func setup(dir string, files []fileSpec) error {
+	os.MkdirAll(filepath.Join(dir, "sub"), 0755)
+	for _, f := range files {
+		p := filepath.Join(dir, f.Name)
+		if err := os.WriteFile(p, f.Data, 0644); err != nil {
+			return err
+		}
+		if err := os.Chmod(p, os.FileMode(f.Mode)); err != nil {
+			return err
+		}
+	}
+	return nil
+}
+
+func runIn(dir string, deadline time.Duration, name string, args ...string) (stdout, stderr []byte, code int, timedOut bool) {
+	cmd := exec.Command(name, args...)
+	cmd.Dir = dir
+	cmd.Env = append(os.Environ(), "MLRRC=__none__", "TMPDIR=/nonexistent-tmpdir")
+	cmd.SysProcAttr = &syscall.SysProcAttr{Setpgid: true}
+	var ob, eb bytes.Buffer
+	cmd.Stdout, cmd.Stderr = &ob, &eb
+	if err := cmd.Start(); err != nil {
+		return nil, []byte(err.Error()), -1, false
+	}
+	done := make(chan error, 1)
+	go func() { done <- cmd.Wait() }()
+	select {
+	case err := <-done:
+		if err != nil {
+			if ee, ok := err.(*exec.ExitError); ok {
+				return ob.Bytes(), eb.Bytes(), ee.ExitCode(), false
+			}
+			return ob.Bytes(), eb.Bytes(), -1, false
+		}
+		return ob.Bytes(), eb.Bytes(), 0, false
+	case <-time.After(deadline):
+		syscall.Kill(-cmd.Process.Pid, syscall.SIGKILL)
+		<-done
+		return ob.Bytes(), eb.Bytes(), -1, true
+	}
+}
+
+func listDir(dir string) map[string]fileSpec {
+	out := map[string]fileSpec{}
+	filepath.Walk(dir, func(p string, info os.FileInfo, err error) error {
+		if err != nil || info.IsDir() {
+			return nil
+		}
+		rel, _ := filepath.Rel(dir, p)
+		if rel == "strace.log" {
+			return nil
+		}
+		b, _ := os.ReadFile(p)
+		out[rel] = fileSpec{Name: rel, Data: b, Mode: uint32(info.Mode().Perm())}
+		return nil
+	})
+	return out
+}
+
+var tempRe = regexp.MustCompile(`(^|/)mlr-in-place-[0-9]+$`)
+
+// ---------------------------------------------------------------- crash-point enumeration
+
+func crashWorker(w *vf.Worker) {
+	mlr := vf.MlrBin()
+	if mlr == "" {
+		w.Broken("no plain mlr binary (VERIF_BIN_MLR)")
+		return
+	}
+	if _, err := exec.LookPath("strace"); err != nil {
+		w.Broken("strace not available: %v", err)
+		return
+	}
+	scs := scenarios(w.Quick())
+	for i, sc := range scs {
+		idx := uint64(i + 1)
+		if !w.Mine(idx) {
+			continue
+		}
+		w.Begin(idx)
+		w.Label(func() string { return sc.Name })
+		crashScenario(w, mlr, sc)
+	}
+}
+
+func crashScenario(w *vf.Worker, mlr string, sc scenario) {
+	dir, err := os.MkdirTemp("/dev/shm", "verif-c19-")
+	if err != nil {
+		w.Broken("tempdir: %v", err)
+		return
+	}
+	defer os.RemoveAll(dir)
+	names := []string{}
+	for _, f := range sc.Files {
+		names = append(names, f.Name)
+	}
+	// expected transformed content: the same command without -I on each file alone
+	expected := map[string][]byte{}
+	if err := setup(dir, sc.Files); err != nil {
+		w.Broken("setup: %v", err)
+		return
+	}
+	for _, f := range sc.Files {
+		out, errb, code, to := runIn(dir, 60*time.Second, mlr, append(append([]string{}, sc.Args...), f.Name)...)
+		if code != 0 || to {
+			w.Broken("reference run without -I failed for %s %s: exit %d %s", sc.Name, f.Name, code, trunc(string(errb), 200))
+			return
+		}
+		expected[f.Name] = out
+	}
+	// the traced run
+	logPath := filepath.Join(dir, "strace.log")
+	args := []string{"-f", "-xx", "-s", "1000000", "-e", "signal=none", "-e", "trace=open,openat,write,close,rename,renameat,renameat2,fchmodat,chmod,fchmod,unlinkat,unlink,ftruncate,pwrite64,writev", "-o", logPath, mlr, "-I"}
+	args = append(args, sc.Args...)
+	args = append(args, names...)
+	_, errb, code, to := runIn(dir, 120*time.Second, "strace", args...)
+	if to || code != 0 {
+		w.Violation("inplace-run-failed:"+sc.Name, fmt.Sprintf("`mlr -I %s %s` exits %d (timeout=%v): %s", strings.Join(sc.Args, " "), strings.Join(names, " "), code, to, trunc(string(errb), 300)), nil)
+		return
+	}
+	logb, _ := os.ReadFile(logPath)
+	evs, err := parseLog(string(logb))
+	if err != nil {
+		w.Broken("strace log of %s: %v", sc.Name, err)
+		return
+	}
+	final := listDir(dir)
+	// initial model
+	m0 := &dirModel{names: map[string]*inode{}, fds: map[int]*fdEnt{}}
+	orig := map[string]fileSpec{}
+	for _, f := range sc.Files {
+		m0.names[filepath.Clean(f.Name)] = &inode{data: append([]byte{}, f.Data...), mode: f.Mode}
+		orig[filepath.Clean(f.Name)] = f
+	}
+	// acceptable "complete transformed bytes" per file = what the run finally left, provided it decodes to the expected text
+	for _, f := range sc.Files {
+		fin, ok := final[filepath.Clean(f.Name)]
+		if !ok {
+			w.Violation("final-missing:"+sc.Name, fmt.Sprintf("%s: %s does not exist after a successful -I run", sc.Name, f.Name), nil)
+			return
+		}
+		dec, err := decompress(sc.Comp, fin.Data)
+		if err != nil {
+			w.Violation("final-not-compressed:"+sc.Name, fmt.Sprintf("%s: %s is not valid %s after -I: %v", sc.Name, f.Name, sc.Comp, err), nil)
+			return
+		}
+		if !bytes.Equal(dec, expected[f.Name]) {
+			w.Violation("final-content:"+sc.Name, fmt.Sprintf("%s: %s after -I differs from what the same command without -I prints for that file alone: got %q want %q", sc.Name, f.Name, trunc(string(dec), 200), trunc(string(expected[f.Name]), 200)),
+				map[string]any{"scenario": sc.Name, "args": sc.Args, "file": f.Name, "got": string(dec), "want": string(expected[f.Name])})
+		}
+		if fin.Mode != f.Mode {
+			w.Violation("final-mode:"+sc.Name, fmt.Sprintf("%s: mode of %s is %04o after -I, was %04o", sc.Name, f.Name, fin.Mode, f.Mode), nil)
+		}
+	}
+	for n := range final {
+		if _, ok := orig[n]; !ok {
+			w.Violation("final-extra-file:"+sc.Name, fmt.Sprintf("%s: unexpected file %s left after a successful -I run", sc.Name, n), nil)
+		}
+	}
+	// enumerate crash states
+	invariant := func(m *dirModel, at string) {
+		w.Eval(1)
+		w.Rep.States++
+		temps := 0
+		for n := range m.names {
+			if _, ok := orig[n]; ok {
+				continue
+			}
+			if tempRe.MatchString(n) {
+				temps++
+				continue
+			}
+			w.Violation("crash-extra-file:"+sc.Name, fmt.Sprintf("%s: crash %s leaves unexpected file %s", sc.Name, at, n), nil)
+		}
+		if temps > 1 {
+			w.Violation("crash-many-temps:"+sc.Name, fmt.Sprintf("%s: crash %s leaves %d temp files", sc.Name, at, temps), nil)
+		}
+		seenOrig := false
+		for _, f := range sc.Files {
+			n := filepath.Clean(f.Name)
+			ino := m.names[n]
+			switch {
+			case ino == nil:
+				w.Violation("crash-missing:"+sc.Name, fmt.Sprintf("%s: crash %s: %s does not exist", sc.Name, at, n), map[string]any{"scenario": sc.Name, "crash_point": at})
+			case bytes.Equal(ino.data, f.Data) && !bytes.Equal(f.Data, final[n].Data):
+				seenOrig = true
+			case bytes.Equal(ino.data, final[n].Data):
+				if seenOrig && !bytes.Equal(f.Data, final[n].Data) {
+					w.Violation("crash-order:"+sc.Name, fmt.Sprintf("%s: crash %s: %s already transformed although an earlier file is still original", sc.Name, at, n), nil)
+				}
+			default:
+				w.Violation("crash-half-written:"+sc.Name, fmt.Sprintf("%s: crash %s leaves %s with %d bytes that are neither the original (%d bytes) nor the complete transformed content (%d bytes)", sc.Name, at, n, len(ino.data), len(f.Data), len(final[n].Data)),
+					map[string]any{"scenario": sc.Name, "args": sc.Args, "files": names, "crash_point": at, "file": n, "content": trunc(string(ino.data), 300)})
+			}
+		}
+	}
+	m := m0
+	invariant(m, "before the first syscall")
+	relevant := 0
+	for k, e := range evs {
+		// torn writes first (states strictly inside this write)
+		if e.Call == "write" {
+			fd, _ := strconv.Atoi(e.Args[0])
+			if _, ok := m.fds[fd]; ok && e.Ret > 1 {
+				step := 1
+				if e.Ret > 512 {
+					step = 61
+				}
+				for p := 1; p < e.Ret; p += step {
+					mm := m.clone()
+					if _, err := mm.apply(e, p); err != nil {
+						w.Broken("%s: model: %v", sc.Name, err)
+						return
+					}
+					invariant(mm, fmt.Sprintf("inside syscall #%d (%s) after %d of %d bytes", k, e.Call, p, e.Ret))
+					w.Count("torn_write_states", 1)
+				}
+			}
+		}
+		touched, err := m.apply(e, -1)
+		if err != nil {
+			w.Broken("%s: model cannot replay %q: %v", sc.Name, e.Line, err)
+			return
+		}
+		if touched {
+			relevant++
+			w.Rep.Transitions++
+			invariant(m, fmt.Sprintf("after syscall #%d: %s", k, e.Line))
+			w.Count("syscall:"+e.Call, 1)
+		}
+	}
+	// model validation: the full replay must equal the directory the real run left behind
+	ok := len(m.names) == len(final)
+	for n, ino := range m.names {
+		f, present := final[n]
+		if !present || !bytes.Equal(f.Data, ino.data) || f.Mode != ino.mode {
+			ok = false
+		}
+	}
+	if !ok {
+		w.Broken("%s: directory model diverges from the real final directory (model %v)", sc.Name, keys(m.names))
+		return
+	}
+	w.Count("traces_validated", 1)
+	w.Count("scenarios", 1)
+	w.Nontrivial(1)
+	if relevant < 4*len(sc.Files) {
+		w.Broken("%s: only %d relevant syscalls logged for %d files: strace filter or parser lost events", sc.Name, relevant, len(sc.Files))
+	}
+	if len(w.Rep.Samples) < 2 {
+		var hist []string
+		mm := &dirModel{names: map[string]*inode{}, fds: map[int]*fdEnt{}}
+		for _, f := range sc.Files {
+			mm.names[filepath.Clean(f.Name)] = &inode{data: f.Data, mode: f.Mode}
+		}
+		for _, e := range evs {
+			if t, _ := mm.apply(e, -1); t && len(hist) < 12 {
+				hist = append(hist, trunc(e.Line, 100))
+			}
+		}
+		w.Sample(map[string]any{"scenario": sc.Name, "command": "mlr -I " + strings.Join(sc.Args, " ") + " " + strings.Join(names, " "), "relevant_syscalls": relevant, "history_head": hist})
+	}
+}
+
+func keys(m map[string]*inode) []string {
+	var k []string
+	for n := range m {
+		k = append(k, n)
+	}
+	sort.Strings(k)
+	return k
+}
+
+// ---------------------------------------------------------------- positional fault scenarios on the real binary
+
+type faultCase struct {
+	name     string
+	prep     string // shell run before the snapshot of the "original" files
+	sh       string // shell; $MLR binary; cwd = scenario dir with f1.dkvp f2.dkvp f3.dkvp (3 records each) and f1.csv...
+	done     int    // number of leading files that must be fully transformed (others byte-identical to the original)
+	exitPath bool   // failure leaves through a library os.Exit (temp file hygiene reported separately)
+	anyExit  bool   // success is acceptable too (e.g. refusal cases that have nothing to do)
+}
+
+func faultCases(quick bool) []faultCase {
+	var out []faultCase
+	for _, file := range []int{1, 2, 3} {
+		for _, p := range []int{1, 2, 3} {
+			if quick && p == 2 {
+				continue
+			}
+			nr := p
+			out = append(out,
+				faultCase{name: fmt.Sprintf("dsl-returned-error:file=%d:rec=%d", file, p), sh: fmt.Sprintf(`$MLR -I put 'if (FILENAME=="f%d.dkvp" && FNR==%d) {int y = "abc"} $z=1' f1.dkvp f2.dkvp f3.dkvp`, file, nr), done: file - 1},
+				faultCase{name: fmt.Sprintf("dsl-exit-error:file=%d:rec=%d", file, p), sh: fmt.Sprintf(`$MLR -I put 'if (FILENAME=="f%d.dkvp" && FNR==%d) {$y = asserting_null($a)} $z=1' f1.dkvp f2.dkvp f3.dkvp`, file, nr), done: file - 1, exitPath: true},
+			)
+		}
+		out = append(out, faultCase{name: fmt.Sprintf("csv-ragged:file=%d", file), prep: fmt.Sprintf(`printf 'a,b\n1,2\n3\n5,6\n' > g%d.csv`, file), sh: `$MLR -I --csv put '$z=1' g1.csv g2.csv g3.csv`, done: file - 1})
+		out = append(out, faultCase{name: fmt.Sprintf("missing-file:pos=%d", file), prep: fmt.Sprintf(`rm f%d.dkvp`, file), sh: `$MLR -I put '$z=1' f1.dkvp f2.dkvp f3.dkvp`, done: -2})
+	}
+	// EFBIG at byte offset L of the temp file (big.dkvp: 9 kB, several write syscalls)
+	step := 512
+	if quick {
+		step = 2048
+	}
+	for L := 0; L <= 9000; L += step {
+		out = append(out, faultCase{name: fmt.Sprintf("efbig:L=%d", L), sh: fmt.Sprintf(`trap "" XFSZ; prlimit --fsize=%d $MLR -I put '$z=1' big.dkvp f2.dkvp`, L), done: 0})
+	}
+	out = append(out,
+		faultCase{name: "rename-fails", sh: `strace -f -o /dev/null -e trace=renameat,rename,renameat2 -e inject=renameat,rename,renameat2:error=EXDEV $MLR -I put '$z=1' f1.dkvp f2.dkvp`, done: 0},
+		faultCase{name: "unwritable-directory", sh: `chmod 555 .; setpriv --reuid=65534 --regid=65534 --clear-groups $MLR -I put '$z=1' f1.dkvp; rc=$?; chmod 755 .; exit $rc`, done: 0},
+		faultCase{name: "refuse-prepipe", sh: `$MLR -I --prepipe cat put '$z=1' f1.dkvp`, done: 0},
+		faultCase{name: "refuse-prepipex", sh: `$MLR -I --prepipex cat put '$z=1' f1.dkvp`, done: 0},
+		faultCase{name: "refuse-bz2", sh: `$MLR -I --bz2in put '$z=1' f1.dkvp`, done: 0},
+		faultCase{name: "refuse-bz2-extension", prep: `printf 'BZh91AY' > h.dkvp.bz2`, sh: `$MLR -I put '$z=1' h.dkvp.bz2 f1.dkvp`, done: -1},
+		faultCase{name: "refuse-url", sh: `$MLR -I put '$z=1' file://f1.dkvp`, done: 0},
+		faultCase{name: "parse-error", sh: `$MLR -I put '$z=' f1.dkvp f2.dkvp`, done: 0},
+		faultCase{name: "no-such-verb", sh: `$MLR -I nosuchverb f1.dkvp`, done: 0},
+		faultCase{name: "ocsv-schema-change", prep: `printf 'a=1,b=2\nc=3\n' > h.dkvp`, sh: `$MLR -I --ocsv cat h.dkvp f1.dkvp`, done: -1},
+		faultCase{name: "tee-redirect-unwritable", sh: `$MLR -I put -q 'tee > "/nonexistent-dir/x", $*' f1.dkvp f2.dkvp`, done: 0},
+	)
+	return out
+}
+
+func faultWorker(w *vf.Worker) {
+	mlr := vf.MlrBin()
+	if mlr == "" {
+		w.Broken("no plain mlr binary (VERIF_BIN_MLR)")
+		return
+	}
+	cases := faultCases(w.Quick())
+	for i, fc := range cases {
+		idx := uint64(i + 1)
+		if !w.Mine(idx) {
+			continue
+		}
+		w.Begin(idx)
+		w.Label(func() string { return fc.name })
+		dir, err := os.MkdirTemp("/dev/shm", "verif-c19f-")
+		if err != nil {
+			w.Broken("tempdir: %v", err)
+			return
+		}
+		os.Chmod(dir, 0755)
+		var files []fileSpec
+		for k := 1; k <= 3; k++ {
+			files = append(files, fileSpec{Name: fmt.Sprintf("f%d.dkvp", k), Data: recs("dkvp", 3, k*10), Mode: 0644})
+			files = append(files, fileSpec{Name: fmt.Sprintf("g%d.csv", k), Data: recs("csv", 3, k*10), Mode: 0644})
+		}
+		files = append(files, fileSpec{Name: "big.dkvp", Data: recs("dkvp", 600, 0), Mode: 0644})
+		setup(dir, files)
+		if fc.prep != "" {
+			pc := exec.Command("/bin/sh", "-c", fc.prep)
+			pc.Dir = dir
+			if out, err := pc.CombinedOutput(); err != nil {
+				w.Broken("prep of %s failed: %v %s", fc.name, err, out)
+				os.RemoveAll(dir)
+				continue
+			}
+		}
+		before := listDir(dir)
+		// expected transformed content for each file under the fault-free command: not needed; committed files must
+		// merely differ from the original and be complete records (checked by re-reading with mlr)
+		cmd := exec.Command("/bin/sh", "-c", fc.sh)
+		cmd.Dir = dir
+		cmd.Env = append(os.Environ(), "MLR="+mlr, "MLRRC=__none__")
+		var eb bytes.Buffer
+		cmd.Stderr = &eb
+		cmd.SysProcAttr = &syscall.SysProcAttr{Setpgid: true}
+		code, timedOut := 0, false
+		if err := cmd.Start(); err == nil {
+			done := make(chan error, 1)
+			go func() { done <- cmd.Wait() }()
+			select {
+			case err := <-done:
+				if ee, ok := err.(*exec.ExitError); ok {
+					code = ee.ExitCode()
+				} else if err != nil {
+					code = -1
+				}
+			case <-time.After(60 * time.Second):
+				syscall.Kill(-cmd.Process.Pid, syscall.SIGKILL)
+				<-done
+				timedOut = true
+			}
+		}
+		after := listDir(dir)
+		os.Chmod(dir, 0755)
+		os.RemoveAll(dir)
+		w.Eval(1)
+		w.Nontrivial(1)
+		rp := map[string]any{"case": fc.name, "command": fc.sh, "exit": code, "stderr": trunc(eb.String(), 400)}
+		if timedOut {
+			w.Violation("fault-hang:"+fc.name, fmt.Sprintf("`%s` did not terminate within 60 s", fc.sh), rp)
+			continue
+		}
+		if code == 0 {
+			w.Violation("fault-exit0:"+fc.name, fmt.Sprintf("`%s` exits 0 although processing could not complete (stderr %q)", fc.sh, trunc(eb.String(), 200)), rp)
+		} else if !strings.Contains(eb.String(), "mlr") {
+			w.Violation("fault-nodiag:"+fc.name, fmt.Sprintf("`%s` exits %d without an mlr diagnostic (stderr %q)", fc.sh, code, trunc(eb.String(), 200)), rp)
+		}
+		// file states
+		var named []string
+		switch {
+		case strings.HasPrefix(fc.name, "csv-ragged"):
+			named = []string{"g1.csv", "g2.csv", "g3.csv"}
+		case strings.HasPrefix(fc.name, "efbig"):
+			named = []string{"big.dkvp", "f2.dkvp"}
+		case strings.HasPrefix(fc.name, "ocsv-schema"):
+			named = []string{"h.dkvp", "f1.dkvp"}
+		case fc.name == "refuse-bz2-extension":
+			named = []string{"h.dkvp.bz2", "f1.dkvp"}
+		case strings.HasPrefix(fc.name, "dsl-"), strings.HasPrefix(fc.name, "missing-file"):
+			named = []string{"f1.dkvp", "f2.dkvp", "f3.dkvp"}
+		default:
+			named = []string{"f1.dkvp", "f2.dkvp"}
+		}
+		ntemp := 0
+		for n := range after {
+			if tempRe.MatchString(n) {
+				ntemp++
+			}
+		}
+		if ntemp > 0 {
+			if fc.exitPath {
+				// The property limits temp-file hygiene to "failures reported through the normal error
+				// path"; an abort through a library os.Exit (asserting_*, function return-type checks:
+				// see /repo/plans/exit.md) is not that path. Counted and reported in evidence, not flagged.
+				w.Count("temp_files_stranded_by_library_os_exit_paths", 1)
+			} else {
+				w.Violation("fault-temp-left:"+fc.name, fmt.Sprintf("`%s` (exit %d) leaves %d mlr-in-place-* temp file(s) behind", fc.sh, code, ntemp), rp)
+			}
+		}
+		transformedSoFar := true
+		for k, n := range named {
+			b, hadBefore := before[n]
+			a, hasAfter := after[n]
+			if strings.HasPrefix(fc.name, "missing-file") || n == "h.dkvp" {
+				if !hadBefore || !hasAfter {
+					continue
+				}
+			}
+			if !hasAfter {
+				if hadBefore {
+					w.Violation("fault-file-gone:"+fc.name, fmt.Sprintf("`%s`: %s no longer exists", fc.sh, n), rp)
+				}
+				transformedSoFar = false
+				continue
+			}
+			same := bytes.Equal(a.Data, b.Data)
+			if fc.done >= 0 {
+				if k < fc.done {
+					if same {
+						w.Violation("fault-earlier-file-not-committed:"+fc.name, fmt.Sprintf("`%s`: %s was processed before the failing file but still has its original bytes", fc.sh, n), rp)
+					}
+				} else if !same {
+					w.Violation("fault-file-modified:"+fc.name, fmt.Sprintf("`%s` (exit %d): %s was modified although the failure happened at or before it: %q", fc.sh, code, n, trunc(string(a.Data), 200)), rp)
+				}
+			} else {
+				// unspecified split point: transformed files must form a prefix of the list
+				if !same && !transformedSoFar {
+					w.Violation("fault-order:"+fc.name, fmt.Sprintf("`%s`: %s modified although an earlier file is untouched", fc.sh, n), rp)
+				}
+				if same {
+					transformedSoFar = false
+				}
+			}
+			// a modified file must be complete: every line ends in newline and has the new field
+			if !same && strings.HasSuffix(n, ".dkvp") && strings.Contains(fc.sh, "$z=1") {
+				for _, ln := range strings.Split(strings.TrimSuffix(string(a.Data), "\n"), "\n") {
+					if !strings.HasSuffix(ln, ",z=1") {
+						w.Violation("fault-half-written:"+fc.name, fmt.Sprintf("`%s`: %s is neither original nor completely transformed: line %q", fc.sh, n, trunc(ln, 80)), rp)
+						break
+					}
+				}
+				if len(strings.Split(strings.TrimSuffix(string(a.Data), "\n"), "\n")) != len(strings.Split(strings.TrimSuffix(string(b.Data), "\n"), "\n")) {
+					w.Violation("fault-half-written:"+fc.name, fmt.Sprintf("`%s`: %s has a different number of records after the failed run", fc.sh, n), rp)
+				}
+			}
+		}
+		w.AddSet("fault-kinds", strings.SplitN(fc.name, ":", 2)[0])
+		if i < 2 {
+			w.Sample(rp)
+		}
+	}
+}
+
+func run(c *vf.Ctx) {
+	c.Rule = "crash points: for each scenario (verb x format x file list x compression x mode) the real `mlr -I` runs under strace; EVERY prefix of the logged open/write/close/rename/chmod/unlink history and every byte truncation of every write (every 61st byte for writes > 512 bytes) is replayed on a directory model and the invariant evaluated: evaluations = crash states; states = crash states; transitions = relevant syscalls; traces_validated_against_impl = scenarios whose full replay equals the real final directory byte for byte and mode for mode. Fault cases: positional faults on the real binary. distinct_nontrivial = scenarios + fault cases"
+	c.Assume("crash model = process stop (kill -9) with the kernel surviving: a crash state is a prefix of the process's syscall history; power-loss reordering (no fsync before rename in the code) is outside the claim")
+	c.Assume("mode between rename and chmod is the temp file's 0600 (stricter); the property requires mode preservation on success only")
+	c.Assume("temp-file hygiene is asserted for failures reported through the normal error path only (as the property says); aborts through a library os.Exit (asserting_* etc.) do strand the temp file: counted in counters.temp_files_stranded_by_library_os_exit_paths, not flagged")
+	c.RunPool(vf.PoolSpec{Worker: "crash", Shards: 32, StallSecs: 600})
+	res := c.RunPool(vf.PoolSpec{Worker: "fault", Shards: 32, StallSecs: 600})
+	c.TracesValidated = c.Counters["traces_validated"]
+	c.Extra["fault_kinds"] = vf.SortedSet(res, "fault-kinds")
+	c.Extra["scenarios_enumerated"] = len(scenarios(c.Quick()))
+	c.Extra["fault_cases_enumerated"] = len(faultCases(c.Quick()))
+}
